@@ -45,6 +45,7 @@ func runC11(e *Engine, r *Report, tier string) {
 	r.Rule("R3", "no validator-mutating staking API reachable from the routine", 1, "")
 	r.Rule("R4", "rewards withdrawn first; F1 bookkeeping paired per branch; stake recomputed from shares", 6, "")
 	r.Rule("R5", "receiving-redelegation refusal dominates all writes", 1, "")
+	r.Rule("R7", "a delegation record created by the transfer names its delegator and validator by the canonical rendering of the parsed addresses (String() of an address value), never by a string taken from call data", 1, "NewDelegation calls in the routine")
 	r.Rule("R6", "only a positive amount of shares reaches the transfer routine (refused in the routine or in Validate() of the argument struct)", 2, "call sites of the routine")
 
 	fn := e.shareTransferRoutine()
@@ -514,6 +515,34 @@ func runC11(e *Engine, r *Report, tier string) {
 		r.Fail("R4", key+" stake sites", e.Pos(fn.Pos()), fmt.Sprintf("only %d starting-info stake computations (sender update, recipient update, recipient create expected)", nStake))
 	}
 
+	// R7: staking groups and looks delegations up by the validator STRING stored in the record (invariants, gov tally); bech32
+	// also accepts an all-upper-case spelling, so a raw call-data string stored there splits one validator's delegations in
+	// two (round-8 seed C11 passed args.Validator through)
+	{
+		n7 := 0
+		allCalls(fn, func(c ssa.CallInstruction) {
+			if callName(c) != "NewDelegation" {
+				return
+			}
+			for ai, a := range c.Common().Args {
+				if b, ok := a.Type().Underlying().(*types.Basic); !ok || b.Kind() != types.String {
+					continue
+				}
+				n7++
+				canonical := false
+				if sc, ok := stripConv(a).(*ssa.Call); ok && callName(sc) == "String" {
+					rt := recvTypeName(sc)
+					if strings.HasSuffix(rt, "types.ValAddress") || strings.HasSuffix(rt, "types.AccAddress") {
+						canonical = true
+					}
+				}
+				r.Check(canonical, "R7", fmt.Sprintf("%s NewDelegation arg#%d", key, ai), e.InstrPos(c), "String() of a parsed address", "the new delegation record is given an address string that is not the canonical rendering of a parsed address (e.g. the caller's own spelling from call data): bech32 accepts upper case, the record then names the validator differently from every other record and staking's per-validator sums and lookups miss it")
+			}
+		})
+		if n7 == 0 {
+			r.Fail("R7", key+" NewDelegation", e.Pos(fn.Pos()), "UNRESOLVED-ANCHOR: the routine creates no delegation record for a new recipient")
+		}
+	}
 	// R5
 	okRed := false
 	allCalls(fn, func(c ssa.CallInstruction) {
